@@ -26,7 +26,8 @@ type layout struct {
 	Padding   int    `json:"padding"`
 	SID       int    `json:"session_id_len"`
 	BigShare  bool   `json:"big_key_share"`
-	Direct    int    `json:"uncompressed_shared"` // 0 = included directly in inner, 1 = omitted from inner
+	Direct    int    `json:"uncompressed_shared"`          // 0 = included directly in inner, 1 = omitted from inner
+	InnerSID  int    `json:"encoded_inner_session_id_len"` // 0 (conforming) or a non-empty id that differs from the outer one
 }
 
 const innerName = "inner.secret.example"
@@ -94,6 +95,7 @@ func buildLayout(key echx.KeyPair, l layout) echx.Spec {
 		Outer:  &tlsref.Hello{Version: 0x0303, Random: tlsref.DetBytes("outer-random", 32), SessionID: sid, CipherSuites: []byte{0x13, 0x01, 0x13, 0x03}, Compression: []byte{0}, Exts: outer},
 		EchIdx: echIdx, EncInner: inner, InnerBase: echx.StdInnerBase(), Padding: make([]byte, l.Padding),
 		EphLabel: fmt.Sprintf("c03-%d", l.AEAD),
+		InnerSID: tlsref.DetBytes("inner-sid", l.InnerSID),
 	}
 }
 
@@ -113,7 +115,7 @@ func SelfValidate(key echx.KeyPair) error {
 }
 
 func Run(r *ev.Run) {
-	r.Rule("E1 exhaustive: 3 AEADs x every subset of 6 shared extensions chosen for compression x every position of the ech_outer_extensions marker x 3 positions of the inner ECH extension x 3 outer layouts (ECH first/middle/last, unrelated extensions interleaved) x padding{0,1,31,32} x session-id length{0,1,32} x key_share 36B/1220B x uncompressed shared extensions kept/omitted, plus a size family up to the 16 KiB record limit; each sealed by the reference sender and fed to the real NewConn; forwarded record compared byte for byte with the reference reconstruction. distinct = distinct outer-hello byte strings")
+	r.Rule("E1 exhaustive: 3 AEADs x every subset of 6 shared extensions chosen for compression x every position of the ech_outer_extensions marker x 3 positions of the inner ECH extension x 3 outer layouts (ECH first/middle/last, unrelated extensions interleaved) x padding{0,1,31,32} x session-id length{0,1,32} x key_share 36B/1220B x uncompressed shared extensions kept/omitted x session id inside the encoded inner {empty, 7 B, 32 B differing from the outer one}, plus a size family up to the 16 KiB record limit; each sealed by the reference sender and fed to the real NewConn; forwarded record compared byte for byte with the reference reconstruction. distinct = distinct outer-hello byte strings")
 	r.Assume("tlsref/hpkeref reference sender is correct (validated on every run against crypto/tls and RFC 9180 vectors)", "outer hellos do not repeat an extension type")
 	key := echx.NewKey("c03", 7, echx.AllSuites, "public.example")
 	if err := SelfValidate(key); err != nil {
@@ -142,14 +144,16 @@ func Run(r *ev.Run) {
 								for _, s := range sids {
 									for _, big := range []bool{false, true} {
 										for direct := 0; direct < 2; direct++ {
-											cases = append(cases, layout{aead, refs, marker, echAt, ok, p, s, big, direct})
+											for _, isid := range []int{0, 7, 32} {
+												cases = append(cases, layout{aead, refs, marker, echAt, ok, p, s, big, direct, isid})
+											}
 										}
 									}
 								}
 							}
 						} else {
 							k := len(cases)
-							cases = append(cases, layout{aead, refs, marker, echAt, ok, paddings[k%4], sids[(k/4)%3], k%5 == 0, (k / 7) % 2})
+							cases = append(cases, layout{aead, refs, marker, echAt, ok, paddings[k%4], sids[(k/4)%3], k%5 == 0, (k / 7) % 2, []int{0, 0, 7, 32}[(k/3)%4]})
 						}
 					}
 				}
